@@ -390,6 +390,24 @@ Proof.
   - destruct E2 as [->|E2]; [rewrite N.eqb_refl in Ea; discriminate|exact (IH Hnd' E2)].
 Qed.
 
+(* ... and only it: every other marked hash stays marked, and the tree and the tip are untouched *)
+Lemma memN_removeN_other x y l : y <> x -> memN y (removeN x l) = memN y l.
+Proof.
+  intros Hne. induction l as [|a l IH]; [reflexivity|].
+  cbn [removeN]. destruct (x =? a) eqn:Ea.
+  - apply N.eqb_eq in Ea. subst a. cbn [memN]. destruct (y =? x) eqn:Exy; [|reflexivity].
+    apply N.eqb_eq in Exy. congruence.
+  - cbn [memN]. rewrite IH. reflexivity.
+Qed.
+
+Theorem unmark_keeps_others s x y : y <> x ->
+  memN y (invalid (fst (unmark s x))) = memN y (invalid s) /\
+  nodes (fst (unmark s x)) = nodes s /\ tip (fst (unmark s x)) = tip s.
+Proof.
+  intros Hne. unfold unmark. destruct (memN x (invalid s)); cbn [fst invalid nodes tip]; [|auto].
+  split; [apply memN_removeN_other; exact Hne|auto].
+Qed.
+
 (* ---------------------------------------------------------------------------------- *)
 (* C09: lookups agree with the tree                                                     *)
 
